@@ -29,7 +29,7 @@ type c7sb struct {
 
 func TestC07Sys(t *testing.T) {
 	e := vlib.GetEnv()
-	n := e.Pick(48, 800)
+	n := e.Pick(48, 6000)
 	vlib.RunCases(t, "C07", "sys", n, func(c *vlib.Case) vlib.Result {
 		var res vlib.Result
 		rng := c.Rng
